@@ -362,6 +362,45 @@ class Program:
     def fn(self, key):
         return self.fns.get(key)
 
+    def reaches_call(self, key, names, depth=2, _seen=None):
+        """Does the crate function `key` contain (within `depth` crate-local calls) a call whose callee name / key is in names?"""
+        f = self.fns.get(key) or self.helpers.get(key)
+        if f is None:
+            return False
+        seen = _seen if _seen is not None else set()
+        if key in seen:
+            return False
+        seen.add(key)
+        for _, t in f.calls():
+            c = t.get("callee") or {}
+            ks = {c.get("key"), c.get("path"), (c.get("resolved") or {}).get("key")}
+            nm = c.get("name")
+            tr = c.get("trait")
+            ks.add("%s::%s" % (tr, nm) if tr else nm)
+            if ks & set(names):
+                return True
+            for k2 in (c.get("key"), (c.get("resolved") or {}).get("key")):
+                if depth > 0 and k2 and self.reaches_call(k2, names, depth - 1, seen):
+                    return True
+        return False
+
+    def view_towards(self, fn, names, depth=2):
+        """`fn` with the crate's own wrappers looked through until a call to one of `names` (e.g. "BlsSignCrypt::valid")
+        is visible in its own body: calls to crate functions that reach such a call are spliced in.  The function
+        table is unchanged; the view is cached per (function, names)."""
+        from .mirinline import splice_calls
+
+        ck = (fn.key, tuple(sorted(names)), depth)
+        cache = self.__dict__.setdefault("_views", {})
+        if ck in cache:
+            return cache[ck]
+        by_key = {k: f.j for k, f in list(self.fns.items()) + list(self.helpers.items())}
+        want = {k: j for k, j in by_key.items() if k != fn.key and k not in names and not j.get("from_expansion") and self.reaches_call(k, names, depth - 1)}
+        nj = splice_calls(fn.j, by_key, want, depth)
+        v = fn if nj is fn.j else Fn(self, nj)
+        cache[ck] = v
+        return v
+
     def find(self, pattern):
         rx = re.compile(pattern)
         return [f for k, f in sorted(self.fns.items()) if rx.search(k)]
